@@ -319,7 +319,16 @@ func TestC04_Chain(t *testing.T) {
 			if _, err := stack.Parser.Parse("did:sidetree", raw); err != nil {
 				t.Fatalf("C04 harness: chain %s refused: %v\n%s", kind, err, raw)
 			}
-			rv, err := linker.Parser.GetRevealValue(raw)
+			// ... nor on how close the request comes to the size limits: a request of exactly the maximum operation size is a
+			// request like any other
+			lk := linker
+			if rapid.IntRange(0, 2).Draw(t, "exactSizeLinker") == 0 {
+				tight := linkCfg
+				tight.MaxOperationSize = uint(len(raw))
+				lk = newStack(tight, operationparser.WithAnchorTimeValidator(&recordingTimeValidator{err: operationparser.ErrOperationExpired}),
+					operationparser.WithAnchorOriginValidator(rejectingOriginValidator{}))
+			}
+			rv, err := lk.Parser.GetRevealValue(raw)
 			if err != nil {
 				t.Fatalf("C04 GetRevealValue(%s): %v", kind, err)
 			}
@@ -337,7 +346,7 @@ func TestC04_Chain(t *testing.T) {
 			if derived != want {
 				t.Fatalf("C04 chain link broken at step %d (%s after %v): reveal value maps to %q, predecessor committed to %q", s, kind, kinds, derived, want)
 			}
-			next, err := linker.Parser.GetCommitment(raw)
+			next, err := lk.Parser.GetCommitment(raw)
 			if err != nil {
 				t.Fatalf("C04 GetCommitment(%s): %v", kind, err)
 			}
@@ -354,7 +363,7 @@ func TestC04_Chain(t *testing.T) {
 				if next != b.NextRecov.Commitment(a) {
 					t.Fatalf("C04 GetCommitment(recover) = %q, next recovery commitment is %q", next, b.NextRecov.Commitment(a))
 				}
-				parsed, err := linker.Parser.ParseRecoverOperation(raw, true)
+				parsed, err := lk.Parser.ParseRecoverOperation(raw, true)
 				if err != nil || parsed.Delta.UpdateCommitment != b.NextUpdate.Commitment(a) {
 					t.Fatalf("C04 parsed recover reports update commitment %v (%v)", parsed, err)
 				}
